@@ -211,7 +211,7 @@ pub proof fn lemma_cube_step(o: Seq<BddNode>, n: Seq<BddNode>, fs: Seq<BF>, c: S
     requires pre_ok(o, fs, c, w), 0 <= idx < c.len(), !decided(c[idx]), keeps(c, nn),
         nodes_wf(n), nodup(n), ext(o, n), handles_in(n, upd), upd.len() == c.len(),
         forall|i: int| 0 <= i < c.len() ==> den(n, (#[trigger] upd[i]).0 as int) == cof(den(o, nn.update(idx, tt(cm))[i].0 as int), nn.update(idx, tt(cm)), c.len() as int),
-    ensures pre_ok(n, fs, upd, w), le_tv(c, upd), decided(upd[idx]),
+    ensures pre_ok(n, fs, upd, w), le_tv(c, upd), decided(upd[idx]), le_tv(nn.update(idx, tt(cm)), upd),
         forall|m: Seq<Term>| #[trigger] goal(fs, false, m) && le_tv(nn.update(idx, tt(cm)), m) ==> le_tv(upd, m),
         forall|j: int| 0 <= j < c.len() ==> no_inf_incons(#[trigger] w[j], upd[j]),
 {
@@ -406,6 +406,119 @@ pub proof fn lemma_handles_ext(o: Seq<BddNode>, n: Seq<BddNode>, v: Seq<Term>) r
 pub open spec fn rows_len(r: Seq<Vec<Term>>, n: int) -> bool { forall|k: int| 0 <= k < r.len() ==> (#[trigger] r[k])@.len() == n }
 pub proof fn lemma_rows_append(a: Seq<Vec<Term>>, b: Seq<Vec<Term>>, n: int) requires rows_len(a, n), rows_len(b, n), ensures rows_len(a + b, n)
 { assert forall|k: int| 0 <= k < (a + b).len() implies (#[trigger] (a + b)[k])@.len() == n by { if k < a.len() { assert((a + b)[k] == a[k]); } else { assert((a + b)[k] == b[k - a.len()]); } } }
+// ---- each once: every row is a two-valued refinement of the vector the call was given, and no row occurs twice
+pub open spec fn rows_ref(r: Seq<Vec<Term>>, c: Seq<Term>) -> bool { forall|k: int| 0 <= k < r.len() ==> two_valued((#[trigger] r[k])@) && le_tv(c, r[k]@) }
+pub open spec fn rows_distinct(r: Seq<Vec<Term>>) -> bool { forall|k1: int, k2: int| 0 <= k1 < k2 < r.len() ==> (#[trigger] r[k1])@ != (#[trigger] r[k2])@ }
+// the rows collected from the first k path cubes: the chosen statement has the goal value and the row lies in one of those cubes
+pub open spec fn cube_rows(cubes: Seq<(Vec<Var>, Vec<Var>)>, k: int, idx: int, cm: bool, r: Seq<Vec<Term>>) -> bool {
+    forall|p: int| 0 <= p < r.len() ==> (#[trigger] r[p])@[idx] == tt(cm) && exists|j: int| 0 <= j < k && #[trigger] cube_sat(cubes[j].0@, cubes[j].1@, masg(r[p]@))
+}
+pub proof fn lemma_cube_rows_mono(cubes: Seq<(Vec<Var>, Vec<Var>)>, k: int, idx: int, cm: bool, r: Seq<Vec<Term>>)
+    requires cube_rows(cubes, k, idx, cm, r),
+    ensures cube_rows(cubes, k + 1, idx, cm, r)
+{
+    assert forall|p: int| 0 <= p < r.len() implies (#[trigger] r[p])@[idx] == tt(cm) && exists|j: int| 0 <= j < k + 1 && #[trigger] cube_sat(cubes[j].0@, cubes[j].1@, masg(r[p]@)) by {
+        let j = choose|j: int| 0 <= j < k && #[trigger] cube_sat(cubes[j].0@, cubes[j].1@, masg(r[p]@));
+        assert(cube_sat(cubes[j].0@, cubes[j].1@, masg(r[p]@)));
+    }
+}
+// the rows of the k-th cube's sub-search (r2, refinements of the updated vector upd) lie in the k-th cube - the decoded vector nn
+// carries its literals, the goal value written at idx does not contradict them (glit_ok) - and the cubes are pairwise disjoint:
+// appended to the rows of the earlier cubes, no row occurs twice
+pub proof fn lemma_rows_take(nodes: Seq<BddNode>, cubes: Seq<(Vec<Var>, Vec<Var>)>, k: int, c: Seq<Term>, idx: int, cm: bool, r: Seq<Vec<Term>>, r2: Seq<Vec<Term>>, nn: Seq<Term>, upd: Seq<Term>)
+    requires 0 <= k < cubes.len(), 0 <= idx < c.len(), c.len() < usize::MAX, nn.len() == c.len(),
+        cubes_ok(nodes, c[idx].0 as int, cm, Var(idx as usize), Seq::<Var>::empty(), Seq::<Var>::empty(), cubes),
+        cube_rows(cubes, k, idx, cm, r), rows_ref(r, c), rows_distinct(r),
+        rows_ref(r2, upd), rows_distinct(r2),
+        le_tv(c, upd), le_tv(nn.update(idx, tt(cm)), upd),
+        lits_below(cubes[k].0@, c.len() as int), lits_below(cubes[k].1@, c.len() as int),
+        neg_all(nn, cubes[k].0@, cubes[k].0@.len() as int), pos_all(nn, cubes[k].1@, cubes[k].1@.len() as int),
+    ensures cube_rows(cubes, k + 1, idx, cm, r + r2), rows_ref(r + r2, c), rows_distinct(r + r2)
+{
+    let np = nn.update(idx, tt(cm));
+    let neg = cubes[k].0@; let pos = cubes[k].1@;
+    let gv = Var(idx as usize);
+    assert(glit_ok(cm, gv, Seq::<Var>::empty(), Seq::<Var>::empty()));
+    assert(glit_ok(cm, gv, neg, pos));
+    assert forall|p: int| 0 <= p < r2.len() implies (#[trigger] r2[p])@[idx] == tt(cm) && cube_sat(neg, pos, masg(r2[p]@)) && le_tv(c, r2[p]@) by {
+        let m = r2[p]@;
+        assert(two_valued(m) && le_tv(upd, m));
+        lemma_le_trans(np, upd, m);
+        lemma_le_trans(c, upd, m);
+        assert(decided(np[idx]) && m[idx] == np[idx]);
+        assert forall|i: int| 0 <= i < neg.len() implies !masg(m)((#[trigger] neg[i]).0) by {
+            let v = neg[i].0 as int;
+            lemma_masg_at(m, v);
+            assert(nn[v].0 == 0);
+            if v == idx { assert(neg[i] == gv); assert(neg.contains(gv)); assert(!cm); } else { assert(np[v] == nn[v]); assert(decided(np[v])); }
+        }
+        assert forall|i: int| 0 <= i < pos.len() implies masg(m)((#[trigger] pos[i]).0) by {
+            let v = pos[i].0 as int;
+            lemma_masg_at(m, v);
+            assert(nn[v].0 == 1);
+            if v == idx { assert(pos[i] == gv); assert(pos.contains(gv)); assert(cm); } else { assert(np[v] == nn[v]); assert(decided(np[v])); }
+        }
+    }
+    lemma_cube_rows_mono(cubes, k, idx, cm, r);
+    let rr = r + r2;
+    assert forall|p: int| 0 <= p < rr.len() implies (#[trigger] rr[p])@[idx] == tt(cm) && exists|j: int| 0 <= j < k + 1 && #[trigger] cube_sat(cubes[j].0@, cubes[j].1@, masg(rr[p]@)) by {
+        if p < r.len() {
+            assert(rr[p] == r[p]);
+            let j = choose|j: int| 0 <= j < k + 1 && #[trigger] cube_sat(cubes[j].0@, cubes[j].1@, masg(r[p]@));
+            assert(cube_sat(cubes[j].0@, cubes[j].1@, masg(rr[p]@)));
+        } else {
+            assert(rr[p] == r2[p - r.len()]);
+            assert(cube_sat(cubes[k].0@, cubes[k].1@, masg(rr[p]@)));
+        }
+    }
+    assert forall|p: int| 0 <= p < rr.len() implies two_valued((#[trigger] rr[p])@) && le_tv(c, rr[p]@) by {
+        if p < r.len() { assert(rr[p] == r[p]); } else { assert(rr[p] == r2[p - r.len()]); }
+    }
+    assert forall|k1: int, k2: int| 0 <= k1 < k2 < rr.len() implies (#[trigger] rr[k1])@ != (#[trigger] rr[k2])@ by {
+        if k2 < r.len() { assert(rr[k1] == r[k1] && rr[k2] == r[k2]); }
+        else if k1 >= r.len() { assert(rr[k1] == r2[k1 - r.len()] && rr[k2] == r2[k2 - r.len()]); }
+        else {
+            assert(rr[k1] == r[k1] && rr[k2] == r2[k2 - r.len()]);
+            let j = choose|j: int| 0 <= j < k && #[trigger] cube_sat(cubes[j].0@, cubes[j].1@, masg(r[k1]@));
+            if rr[k1]@ == rr[k2]@ {
+                assert(cube_sat(cubes[j].0@, cubes[j].1@, masg(rr[k2]@)));
+                assert(cube_sat(cubes[k].0@, cubes[k].1@, masg(rr[k2]@)));
+                assert(false);
+            }
+        }
+    }
+}
+// the rows of the other value's sub-search differ from all rows collected so far at the chosen statement
+pub proof fn lemma_rows_other(cubes: Seq<(Vec<Var>, Vec<Var>)>, c: Seq<Term>, idx: int, cm: bool, r: Seq<Vec<Term>>, r2: Seq<Vec<Term>>, u: Seq<Term>)
+    requires 0 <= idx < c.len(), cube_rows(cubes, cubes.len() as int, idx, cm, r), rows_ref(r, c), rows_distinct(r),
+        rows_ref(r2, u), rows_distinct(r2), le_tv(c, u), u[idx] == tt(!cm),
+    ensures rows_ref(r + r2, c), rows_distinct(r + r2)
+{
+    let rr = r + r2;
+    assert forall|p: int| 0 <= p < r2.len() implies (#[trigger] r2[p])@[idx] == tt(!cm) && le_tv(c, r2[p]@) by {
+        lemma_le_trans(c, u, r2[p]@);
+        assert(decided(u[idx]));
+    }
+    assert forall|p: int| 0 <= p < rr.len() implies two_valued((#[trigger] rr[p])@) && le_tv(c, rr[p]@) by {
+        if p < r.len() { assert(rr[p] == r[p]); } else { assert(rr[p] == r2[p - r.len()]); }
+    }
+    assert forall|k1: int, k2: int| 0 <= k1 < k2 < rr.len() implies (#[trigger] rr[k1])@ != (#[trigger] rr[k2])@ by {
+        if k2 < r.len() { assert(rr[k1] == r[k1] && rr[k2] == r[k2]); }
+        else if k1 >= r.len() { assert(rr[k1] == r2[k1 - r.len()] && rr[k2] == r2[k2 - r.len()]); }
+        else {
+            assert(rr[k1] == r[k1] && rr[k2] == r2[k2 - r.len()]);
+            assert(r[k1]@[idx] == tt(cm));
+            assert(r2[k2 - r.len()]@[idx] == tt(!cm));
+        }
+    }
+}
+pub proof fn lemma_leaf_rows(r: Seq<Vec<Term>>, c: Seq<Term>)
+    requires r.len() == 1, r[0]@ == c, two_valued(c),
+    ensures rows_ref(r, c), rows_distinct(r)
+{ }
+pub proof fn lemma_rows_empty(c: Seq<Term>, cubes: Seq<(Vec<Var>, Vec<Var>)>, idx: int, cm: bool)
+    ensures rows_ref(Seq::<Vec<Term>>::empty(), c), rows_distinct(Seq::<Vec<Term>>::empty()), cube_rows(cubes, 0, idx, cm, Seq::<Vec<Term>>::empty())
+{ }
 // ---- the entry: the grounded interpretation satisfies the recursion's precondition, and every stable model refines it
 pub proof fn lemma_c04_entry(nodes: Seq<BddNode>, fs: Seq<BF>, g: Seq<Term>, w: Seq<Term>)
     requires g.len() == fs.len(), fs.len() < usize::MAX - 1, nodes.len() >= 2, handles_in(nodes, g), all_dep_below(fs), is_lfp(fs, tvs(g)),
@@ -419,13 +532,24 @@ pub proof fn lemma_c04_entry(nodes: Seq<BddNode>, fs: Seq<BF>, g: Seq<Term>, w: 
 }
 // the whole procedure: the list r covers the stable models that refine the grounded interpretation, and the result keeps
 // exactly the rows of r that pass the stability test - so it contains every stable model, and stable models only
+pub open spec fn ordered_src(r: Seq<Vec<Term>>, a: Seq<Term>, b: Seq<Term>) -> bool { exists|j1: int, j2: int| 0 <= j1 < j2 < r.len() && (#[trigger] r[j1])@ == a && (#[trigger] r[j2])@ == b }
 pub proof fn lemma_c04_compose(fs: Seq<BF>, g: Seq<Term>, r: Seq<Vec<Term>>, out: Seq<Vec<Term>>)
     requires covers(r, fs, g), forall|m: Seq<Term>| #[trigger] goal(fs, false, m) ==> le_tv(g, m),
         // Iterator::filter keeps, in order, the rows for which the closure returned true (closure contract: true <==> stable)
         forall|k: int| 0 <= k < out.len() ==> is_stable(fs, (#[trigger] out[k])@) && in_list(r, out[k]@),
         forall|k: int| 0 <= k < r.len() && is_stable(fs, (#[trigger] r[k])@) ==> in_list(out, r[k]@),
+        // ... and keeps them in order (a row of the output comes from an earlier row of r than the next one does)
+        forall|k1: int, k2: int| 0 <= k1 < k2 < out.len() ==> ordered_src(r, (#[trigger] out[k1])@, (#[trigger] out[k2])@),
+        rows_distinct(r),
     ensures forall|m: Seq<Term>| #[trigger] goal(fs, false, m) ==> in_list(out, m), forall|k: int| 0 <= k < out.len() ==> is_stable(fs, (#[trigger] out[k])@),
+        // each stable model is reported once
+        rows_distinct(out),
 {
+    assert forall|k1: int, k2: int| 0 <= k1 < k2 < out.len() implies (#[trigger] out[k1])@ != (#[trigger] out[k2])@ by {
+        assert(ordered_src(r, out[k1]@, out[k2]@));
+        let (j1, j2) = choose|j1: int, j2: int| 0 <= j1 < j2 < r.len() && (#[trigger] r[j1])@ == out[k1]@ && (#[trigger] r[j2])@ == out[k2]@;
+        assert(r[j1]@ != r[j2]@);
+    }
     assert forall|m: Seq<Term>| #[trigger] goal(fs, false, m) implies in_list(out, m) by {
         assert(in_list(r, m));
         let k = choose|k: int| 0 <= k < r.len() && (#[trigger] r[k])@ == m;
@@ -434,9 +558,12 @@ pub proof fn lemma_c04_compose(fs: Seq<BF>, g: Seq<Term>, r: Seq<Vec<Term>>, out
 }
 // the abstract comparator of the counting-guided search (rule M): any ordering may come out - the search is proved for every
 // comparator that leaves the node table and the conditions alone (the real ones write the count cache only, which sits behind a RefCell)
+pub open spec fn cmp_pre(adf: Adf, a: (Var, Term), b: (Var, Term), interpr: Seq<Term>) -> bool {
+    adf.wf() && a.0.0 < interpr.len() && b.0.0 < interpr.len() && a.1.0 < adf.bdd.nodes@.len() && b.1.0 < adf.bdd.nodes@.len() && handles_in(adf.bdd.nodes@, interpr)
+}
 #[verifier::external_body]
 fn __cmp_any(adf: &mut Adf, a: (Var, Term), b: (Var, Term), interpr: &[Term]) -> (r: std::cmp::Ordering)
-    requires old(adf).wf(),
+    requires cmp_pre(*old(adf), a, b, interpr@),
     ensures final(adf).wf(), final(adf).ac == old(adf).ac, final(adf).bdd.nodes == old(adf).bdd.nodes,
 { unimplemented!() }
 // ASSUMED: vec![Term::UND; n] is n copies of Term(2)
